@@ -23,7 +23,7 @@ var fvPool = []fv{
 	{"true", "true", "true"}, {"x y", `"x y"`, "x y"}, {"1e3", "1e3", "1e3"}, {"say \"hi\"", `"say \"hi\""`, `say "hi"`},
 }
 
-var fnames = []string{"a", "b", "speed", "Zeta", "n0"}
+var fnames = []string{"a", "b", "speed", "Zeta", "n0", "LON", "Z"}
 
 // a field update: val == nil is the zero value (sent as 0: the field is deleted)
 type fu struct {
